@@ -950,6 +950,52 @@ def install_chunk_probe():
     Locale.translate_search = translate_search
 
 
+def install_split_probe():
+    """split_by / choose_best_split of the search (spec/SearchSplit.tla)"""
+    if _PROBE.get("split_installed"):
+        return
+    _PROBE["split_installed"] = True
+    try:
+        from dateparser.search.search import _ExactLanguageSearch as X
+        o_split, o_best = X.split_by, X.choose_best_split
+    except Exception:
+        _PROBE["unbound"].append("_ExactLanguageSearch.split_by / choose_best_split")
+        return
+
+    def split_by(self, item, original, splitter):
+        r = o_split(self, item, original, splitter)
+        _events().append({"ev": "splitby", "item": item, "original": original, "splitter": splitter, "out": [[list(a), list(b)] for a, b in r]})
+        return r
+
+    def choose_best_split(self, possible_parsed_splits, possible_substrings_splits):
+        r = o_best(self, possible_parsed_splits, possible_substrings_splits)
+        chosen = next((i + 1 for i, x in enumerate(possible_parsed_splits) if x is r[0]), 0)
+        cands = [[{"parsed": it[0]["date_obj"] is not None, "digit": any(ch.isdigit() for ch in sub)} for it, sub in zip(ps, ss)]
+                 for ps, ss in zip(possible_parsed_splits, possible_substrings_splits)]
+        _events().append({"ev": "best", "cands": cands, "chosen": chosen})
+        return r
+    X.split_by = split_by
+    X.choose_best_split = choose_best_split
+
+
+def project_splitby(e):
+    """one split_by call as spec/SearchSplit.tla sees it: n pieces, and every returned candidate as ranges over them"""
+    sp = e["splitter"]
+    base_o, base_i = e["original"].split(sp), e["item"].split(sp)
+
+    def ranges(pieces, base):
+        out, p = [], 0
+        for x in pieces:
+            k = next((k for k in range(1, len(base) - p + 1) if sp.join(base[p:p + k]) == x), 0)
+            if not k:
+                return out + [[0, 0]]          # a piece that is no run of consecutive pieces of the chunk
+            out.append([p + 1, p + k])
+            p += k
+        return out
+    cands = [ranges(o, base_o) for _, o in e["out"]]
+    return {"n": len(base_o), "cands": cands, "aligned": all(ranges(i, base_i) == ranges(o, base_o) for i, o in e["out"]) and len(base_i) == len(base_o)}
+
+
 def project_chunks(e):
     """one translate_search call in the abstract form of spec/SearchChunks.tla: per sentence, per token, the flags"""
     from dateparser.timezone_parser import word_is_tz
@@ -983,6 +1029,7 @@ def call_search(case):
     probe_chunks = bool(case.get("chunks"))
     if probe_chunks:
         install_chunk_probe()
+        install_split_probe()
         _state.events = []
     for t_ in case.get("pre") or []:      # earlier searches of the same process (not judged here)
         try:
@@ -996,6 +1043,12 @@ def call_search(case):
         res["msg"] = str(e)[:200]
         return res
     if probe_chunks:
+        res["splits"] = []
+        for e_ in [x for x in _state.events if x.get("ev") in ("splitby", "best")][:12]:
+            try:
+                res["splits"].append(dict(project_splitby(e_), kind="splitby") if e_["ev"] == "splitby" else {"kind": "best", "cands": e_["cands"], "chosen": e_["chosen"]})
+            except Exception as x:  # noqa
+                res["splits_error"] = "%s: %s" % (type(x).__name__, x)
         res["chunks"] = []
         for e_ in [x for x in _state.events if x.get("ev") == "tsearch"][-1:]:
             try:
